@@ -29,6 +29,7 @@ static void qlfqueue_internal_cleanup(void)
 {
     assert(qlfqueue_node_pool);
     qpool_destroy(qlfqueue_node_pool);
+    qlfqueue_node_pool = NULL;
 }
 
 /*
